@@ -50,6 +50,8 @@ def execute(spec, want=("C01",), keep_trace=False):
         w = sess.w
         if "C16" in want or "state" in want or "TSRV" in want:
             w.dump_users = True
+        if "TCLI" in want:
+            w.dump_clients = True
         hs = sess.handshake()
         res["stats"]["handshake"] = hs
         res["stats"]["hs_end_us"] = w.now
@@ -294,11 +296,13 @@ def abs_c16(w, sess, frames, t0, hs_len, res):
                 continue
             if cls["kind"] not in ("ping", "data") or pl is None:
                 continue
+            # the delivery this answer belongs to: the one being processed in this very step if it fits (several
+            # copies of one datagram may be outstanding when the server dropped or merged earlier ones), else the oldest
             d = None
             for x in outstanding:
                 if x["src"] == r["dst"] and x["id"] == r["id"] and x["qn"] == r["qn"]:
-                    d = x
-                    break
+                    if d is None or (x["step"] == step and d["step"] != step):
+                        d = x
             if d is not None:
                 outstanding.remove(d)
             if cur is not None and d is not None and d["tagged"] and d["step"] == step and \
@@ -321,7 +325,9 @@ def abs_c16(w, sess, frames, t0, hs_len, res):
 ABSTRACT["C16"] = abs_c16
 
 import tunsrv
+import tuncli
 ABSTRACT["TSRV"] = tunsrv.abstract
+ABSTRACT["TCLI"] = tuncli.abstract
 
 
 def abs_c02(w, sess, frames, t0, hs_len, res):
